@@ -72,8 +72,11 @@ NEG_CONTROLS = [
     ("C16_Gen_bug_leftover", ("ImplSound", "ImplComplete")),
     ("C16_Gen_bug_nomerge", ("ImplSound",)),
     ("C16_Gen_bug_norepeat", ("ImplComplete",)),
+    # known binding tested by its truth value instead of membership: only the "split" targets
+    # (a repeated variable meeting a falsy operand and a different one) refute it
+    ("C16_Gen_bug_truthy", ("ImplSound",)),
 ]
-NEG_CONTROLS_QUICK = [NEG_CONTROLS[0]]
+NEG_CONTROLS_QUICK = [NEG_CONTROLS[0], NEG_CONTROLS[4]]
 
 
 def negative_control(cfg, inv):
@@ -233,7 +236,9 @@ def run(tier, seed, out):
     out.rule = (
         "unifier: TLC enumerates pattern root kind x typed holes (depth <= 2) x targets built as "
         "instances (also flattened+reversed / with an extra operand), renamings (injective and "
-        "not) and independent trees x every subset of the pattern variables as candidate set "
+        "not), independent trees and SPLIT non-instances (one occurrence of a repeated pattern "
+        "variable meets a falsy operand - 0, 0.0, False, 0*x, 0/y - the others a different one) "
+        "x every subset of the pattern variables as candidate set "
         "(+ the default None); a case is one triple, non-trivial = composite pattern for which "
         "the unifier returned at least one record (each record is judged); "
         "matchpy: round-trip terms, (subject, wildcard pattern) pairs for match/match_anywhere "
